@@ -212,6 +212,22 @@ class Pure(object):
             return TRUE
         return fresh_bool('truthy')
 
+    def cond(self, node):
+        """truth value of an expression used as a condition: and/or/not are decomposed into
+        propositional structure (instead of Python's value semantics followed by a truth test)"""
+        if isinstance(node, ast.BoolOp):
+            parts = []
+            guard = self.guard
+            is_and = isinstance(node.op, ast.And)
+            for e in node.values:
+                t = self.sub(guard).cond(e)
+                parts.append(t)
+                guard = z3.And(guard, t if is_and else z3.Not(t))
+            return mk_and(parts) if is_and else mk_or(parts)
+        if isinstance(node, ast.UnaryOp) and isinstance(node.op, ast.Not):
+            return z3.Not(self.cond(node.operand))
+        return self.truthy(self.ev(node))
+
     def ite(self, c, a, b):
         c = simp(c)
         if z3.is_true(c):
@@ -298,7 +314,7 @@ class Pure(object):
         return self.unk('getattr %s on unknown' % attr)
 
     def ev_IfExp(self, node):
-        c = self.truthy(self.ev(node.test))
+        c = self.cond(node.test)
         a = self.sub(z3.And(self.guard, c)).ev(node.body)
         b = self.sub(z3.And(self.guard, z3.Not(c))).ev(node.orelse)
         return self.ite(c, a, b)
@@ -339,6 +355,8 @@ class Pure(object):
                     pass
             return self.unk('unary op on non-int')
         if isinstance(node.op, ast.USub):
+            if z3.is_int_value(t):
+                return IntV(-t.as_long())
             return IntV(-t)
         if isinstance(node.op, ast.UAdd):
             return IntV(t)
@@ -493,7 +511,7 @@ class Pure(object):
                 self.env[s.target.id] = v
                 continue
             if isinstance(s, ast.If):
-                c = self.truthy(self.ev(s.test))
+                c = self.cond(s.test)
                 rest = stmts[i + 1:]
                 pa = Pure(self.eng, self.st, dict(self.env), self.glob, True,
                           z3.And(self.guard, c), self.lineno)
@@ -616,6 +634,9 @@ class Pure(object):
         ta, tb = int_term(a), int_term(b)
         if ta is None or tb is None:
             return self.binop_nonint(op, a, b)
+        if z3.is_int_value(ta) and z3.is_int_value(tb) and isinstance(op, (ast.Add, ast.Sub, ast.Mult)):
+            x, y = ta.as_long(), tb.as_long()
+            return IntV(x + y if isinstance(op, ast.Add) else x - y if isinstance(op, ast.Sub) else x * y)
         if isinstance(op, ast.Add):
             return IntV(ta + tb)
         if isinstance(op, ast.Sub):
@@ -653,6 +674,10 @@ class Pure(object):
         if isinstance(op, ast.BitXor):
             if isinstance(a, BoolV) and isinstance(b, BoolV):
                 return BoolV(z3.Xor(a.t, b.t))
+            if z3.is_int_value(tb) and tb.as_long() == 0:
+                return IntV(ta)
+            if z3.is_int_value(ta) and ta.as_long() == 0:
+                return IntV(tb)
             return IntV(z3.If(z3.And(ta >= 0, ta <= 1, tb >= 0, tb <= 1),
                               z3.If(ta == tb, z3.IntVal(0), z3.IntVal(1)), xor_uf(ta, tb)))
         if isinstance(op, ast.BitOr):
@@ -738,6 +763,9 @@ class Pure(object):
             return e if isinstance(op, ast.In) else z3.Not(e)
         ta, tb = int_term(a), int_term(b)
         if ta is None or tb is None:
+            ca, cb = to_concrete(a), to_concrete(b)
+            if ca is not NOTCONC and cb is not NOTCONC:
+                a, b = ConstV(ca), ConstV(cb)
             if isinstance(a, ConstV) and isinstance(b, ConstV):
                 try:
                     import operator
@@ -945,6 +973,29 @@ class Pure(object):
             except Exception:
                 pass
         return self.unk('slice')
+
+
+NOTCONC = object()
+
+
+def to_concrete(v):
+    """the Python object denoted by a fully concrete value, else NOTCONC"""
+    if isinstance(v, ConstV):
+        return v.obj
+    if isinstance(v, IntV):
+        return v.t.as_long() if z3.is_int_value(v.t) else NOTCONC
+    if isinstance(v, BoolV):
+        if z3.is_true(v.t):
+            return True
+        if z3.is_false(v.t):
+            return False
+        return NOTCONC
+    if isinstance(v, TupV):
+        items = [to_concrete(x) for x in v.items]
+        if any(x is NOTCONC for x in items):
+            return NOTCONC
+        return tuple(items) if v.kind == 'tuple' else items
+    return NOTCONC
 
 
 class SymDict(object):
@@ -1711,7 +1762,7 @@ class PathExec(object):
                 yield st1, RAISE, e
                 continue
             p = self.pure(st1, frame, s.lineno)
-            c = p.truthy(p.ev(s.test))
+            c = p.cond(s.test)
             for st2, taken in self.branch(st1, c, s.lineno):
                 yield from self.block(s.body if taken else s.orelse, st2, frame)
 
@@ -1912,7 +1963,7 @@ class PathExec(object):
                     yield st1, RAISE, e
                     continue
                 p = self.pure(st1, frame, s.lineno)
-                c = p.truthy(p.ev(s.test))
+                c = p.cond(s.test)
                 for st2, taken in self.branch(st1, c, s.lineno):
                     branches.append((st2, taken))
         for st2, taken in branches:
